@@ -73,7 +73,13 @@ def run(tier, rnd, out):
     corpus = lib.load_corpus("C08")
     if corpus: run_stream(out, "corpus", corpus)
     n = 150 if tier == "quick" else 7500
-    mk = lambda k: {"kind": k, "fields": rand_fields(rnd, k), "filler": world.rand_bytes(rnd, 140).hex()}
+    def filler():
+        f = bytearray(world.rand_bytes(rnd, 140))
+        if rnd.random() < .3:                    # the frame magic, or a run of zeros, may occur anywhere in what the fields do not cover
+            for _ in range(rnd.randrange(1, 4)):
+                k = rnd.randrange(138); f[k:k + 2] = rnd.choice([b"\xfe\xf0", b"\xf0\xfe", b"\0\0"])
+        return bytes(f).hex()
+    mk = lambda k: {"kind": k, "fields": rand_fields(rnd, k), "filler": filler()}
     cs = [mk(k) for k in (0, 1, 2, 3) for _ in range(n)]
     if tier == "thorough":
         for t10 in range(65536):
